@@ -265,6 +265,107 @@ def empty_circuit_initial_state(chk, bh, M, bname):
         chk.violation("%s:empty-circuit+initial-state" % bname, bad, {"kind": "empty", "backend": bname, "bh": bh, "M": M})
 
 
+def symbolic_parameters(chk, trs, M, rng, limit):
+    """sympy is a SYMBOLIC backend: a string parameter is a variable. The same transition is simulated with the angle given
+    as a variable name (including names that sympy itself knows as constants) and the variable substituted afterwards."""
+    import sympy
+    from tangelo.linq import Circuit, Gate
+    names = ["theta", "E", "I", "pi", "alpha_1", "oo", "S", "beta"]
+    cand = [tr for tr in trs if tr["g"]["name"] in ("RX", "RY", "RZ", "PHASE", "CRX", "CRY", "CRZ", "CPHASE") and tr["gen"] and tr["n"] <= 2
+            and tr["g"]["k"] % 8 != 0]
+    rng.shuffle(cand)
+    sim = backend("sympy")
+    for j, tr in enumerate(cand[:limit]):
+        n, g = tr["n"], tr["g"]
+        name = names[j % len(names)]
+        val = 2 * math.pi * g["k"] / M
+        s = [to_complex(e, M) for e in tr["s"]]
+        iv = np.array(s if sim.statevector_order == "lsq_first" else reorder(s, n), dtype=complex).reshape((-1, 1))
+        c = Circuit([Gate(g["name"], list(g["t"]), list(g["c"]) or None, parameter=name)], n_qubits=n)
+        case = {"kind": "symbolic", "tr": tr, "M": M, "name": name}
+        try:
+            freqs, sv = sim.simulate(c, return_statevector=True, initial_statevector=iv)
+            syms = {x for x in sympy.Matrix(sv).free_symbols}
+            sub = {x: val for x in syms}
+            svn = [complex(sympy.N(sympy.sympify(x).subs(sub))) for x in sympy.Matrix(sv)]
+            fz = {k: complex(sympy.N(sympy.sympify(f).subs(sub))).real for k, f in freqs.items()}
+        except Exception as e:
+            chk.violation("sympy:symbolic-parameter:exception", "variable %r: %s: %s" % (name, type(e).__name__, str(e)[:150]), case)
+            continue
+        if sim.statevector_order != "lsq_first":
+            svn = reorder(svn, n)
+        chk.add_traces(1, "sympy_symbolic_parameters")
+        if len(syms) != 1:
+            chk.violation("sympy:symbolic-parameter:not-a-variable", "parameter name %r: the symbolic statevector has free symbols %s "
+                          "(the name was not kept as one real variable)" % (name, sorted(map(str, syms))), case)
+            continue
+        bad = judge_result([to_complex(e, M) for e in tr["t"]], n, fz, svn)
+        if bad:
+            chk.violation("sympy:symbolic-parameter", "variable %r substituted by the grid angle: %s" % (name, bad), case)
+
+
+def wide_product_circuit(chk, bhs1, M, rng):
+    """A 12-qubit circuit of single-qubit gates: qubit q carries one of TLC's 1-qubit behaviours, so the exact joint
+    distribution is the product of the exact 1-qubit distributions. Sampled with and without save_mid_circuit_meas
+    (more than 10 measurement keys): every bit position must follow its own marginal."""
+    from tangelo.linq import Circuit
+    W = 12
+    picks = [bhs1[rng.randrange(len(bhs1))] for _ in range(W)]
+    picks = [b for b in picks]
+    gates, p1 = [], []
+    for q, bh in enumerate(picks):
+        if bh["src"] != "zero":
+            bh = [b for b in bhs1 if b["src"] == "zero"][q % max(1, len([b for b in bhs1 if b["src"] == "zero"]))]
+        for g in bh["gates"]:
+            gg = dict(g, t=[q])
+            gates.append(json_to_gate(gg, M))
+        t = [to_complex(e, M) for e in bh["t"]]
+        p1.append(abs(t[1]) ** 2)
+    shots = 4000
+    for save in (False, True):
+        sim = backend("cirq", n_shots=shots)
+        np.random.seed(rng.randrange(2 ** 31))
+        c = Circuit(gates, n_qubits=W)
+        freqs, _ = sim.simulate(c, save_mid_circuit_meas=save)
+        bad = None
+        if abs(sum(freqs.values()) - 1) > 1e-9 or any(len(k) != W for k in freqs):
+            bad = "malformed frequencies (sum %r, key lengths %s)" % (sum(freqs.values()), sorted({len(k) for k in freqs}))
+        else:
+            for q in range(W):
+                f = sum(v for k, v in freqs.items() if k[q] == "1")
+                p = p1[q]
+                if abs(f - p) > 6 * math.sqrt(max(p * (1 - p), 0) / shots) + (1e-9 if p in (0.0, 1.0) or p < 1e-12 or p > 1 - 1e-12 else 1.0 / shots):
+                    bad = "bit position %d: P(1) = %.4f sampled, exact %.4f (save_mid_circuit_meas=%s)" % (q, f, p, save)
+                    break
+        chk.add_traces(1, "wide_product_circuit")
+        if bad:
+            chk.violation("cirq:sampled:wide-register:save_mid=%s" % save, bad, {"kind": "wide", "save": save, "p1": p1})
+
+
+def small_angle_tail(chk):
+    """NUMERIC TAIL (not model-checked): rotation angles far below the grid produce outcomes of small probability
+    (1e-10 < p < 1e-4) that must not be dropped: both backends against closed-form probabilities written out here."""
+    from tangelo.linq import Circuit, Gate
+    d1, d2 = 0.015, 0.01
+    c = Circuit([Gate("H", 0), Gate("CRY", 1, control=0, parameter=d1), Gate("RX", 2, parameter=d2)], n_qubits=3)
+    pa = {0: 0.5, 1: 0.5}
+    pb = {(0, 0): 1.0, (0, 1): 0.0, (1, 0): math.cos(d1 / 2) ** 2, (1, 1): math.sin(d1 / 2) ** 2}
+    pc = {0: math.cos(d2 / 2) ** 2, 1: math.sin(d2 / 2) ** 2}
+    exact = {"%d%d%d" % (a, b, cc): pa[a] * pb[(a, b)] * pc[cc] for a in (0, 1) for b in (0, 1) for cc in (0, 1)}
+    exact = {k: v for k, v in exact.items() if v > 0}
+    worst = 0.0
+    for bname in ("cirq", "sympy"):
+        freqs, _ = backend(bname).simulate(c)
+        fz = {k: complex(v).real for k, v in freqs.items()}
+        err = max(abs(fz.get(k, 0.0) - exact.get(k, 0.0)) for k in set(fz) | set(exact))
+        worst = max(worst, err)
+        if err > 1e-12 + 0 or abs(sum(fz.values()) - 1) > 1e-9:
+            chk.violation("numeric-tail:%s:small-probability-outcomes" % bname, "NUMERIC TAIL: H, CRY(%g), RX(%g): frequencies %s, closed form %s"
+                          % (d1, d2, {k: "%.3g" % v for k, v in sorted(fz.items())}, {k: "%.3g" % v for k, v in sorted(exact.items())}),
+                          {"kind": "small-angle", "backend": bname})
+    chk.part("numeric_tail_small_probabilities_NOT_model_checked", worst_error=worst, oracle="closed-form products of cos^2/sin^2 in the driver")
+
+
 def check_transitions(chk, trs, M, bname, part):
     n_ok = n_ref = 0
     for tr in trs:
@@ -373,6 +474,8 @@ def run(chk):
         by_m.setdefault(tr["M"], []).append(tr)
     for M, trs in by_m.items():
         check_transitions(chk, trs, M, "cirq", "cirq_transitions_M%d" % M)
+    symbolic_parameters(chk, by_m[8], 8, rng, 16 if quick else 120)
+    small_angle_tail(chk)
     inplace_update(chk, by_m[8], 8, "cirq", "inplace_update_cirq", rng, 40 if quick else 400)
     inplace_update(chk, [t for t in by_m[8] if t["n"] <= 2], 8, "sympy", "inplace_update_sympy", rng, 8 if quick else 60)
     # sympy: slow (symbolic) -> seeded sample stratified by gate class
@@ -408,6 +511,10 @@ def run(chk):
                 empty_circuit_initial_state(chk, bh, 8, "sympy")
         if bhs:
             chk.sample({"behaviour": {"n": bhs[0]["n"], "src": bhs[0]["src"], "gates": bhs[0]["gates"]}})
+    bhs1 = [bh for r in simres for bh in r.prints("BH") if bh["n"] == 1 and bh["src"] == "zero"]
+    if bhs1:
+        for _ in range(1 if quick else 6):
+            wide_product_circuit(chk, bhs1, 8, rng)
     chk.part("behaviours", count=n_bh)
     chk.cov["rule"] = ("TLC explores C01Sim (every gate x placement x control subset x grid angle from |0..0> and from a "
                        "generic entangled state; -simulate for depth-5 behaviours); each transition/behaviour is replayed "
